@@ -293,8 +293,9 @@ class HierDictDocument(DictDocument):
             if not six.PY2 and isinstance(class_name, bytes):
                 class_name = class_name.decode('utf8')
 
-            if cls.get_type_name() != class_name and subclasses is not None \
-                                                        and len(subclasses) > 0:
+            if cls.get_type_name() != class_name \
+                    and cls_attrs.sub_name != class_name \
+                    and subclasses is not None and len(subclasses) > 0:
                 for subcls in subclasses:
                     if subcls.get_type_name() == class_name:
                         break
